@@ -891,7 +891,9 @@ def stdin_script(rnd):
 
 
 def modelled_case(rnd, subs=None, format_types=None):
-    sub = rnd.choice(subs or ["color", "lighten", "darken", "saturate", "desaturate", "rotate", "complement", "to-gray", "textcolor",
+    # (textcolor and `format ansi-8bit` are described by relations, not as functions: they have direct oracles in
+    # C09 / C12 and are not compared with the model here)
+    sub = rnd.choice(subs or ["color", "lighten", "darken", "saturate", "desaturate", "rotate", "complement", "to-gray",
                               "colorblind", "set", "format", "mix", "color", "format", "set", "gray", "gradient", "sort-by", "paint", "random", "distinct", "pick"])
     if sub in ("lighten", "darken", "saturate", "desaturate"):
         cargs = [number_text(rnd, 0, 1)]
@@ -903,7 +905,7 @@ def modelled_case(rnd, subs=None, format_types=None):
         p = rnd.choice(SET_PROPS)
         cargs = [rnd.choice([p, p.upper(), p.title(), p.swapcase()]), number_text(rnd, 0, 255 if p in ("red", "green", "blue") else 1)]
     elif sub == "format":
-        t = rnd.choice(format_types or FORMAT_TYPES)
+        t = rnd.choice(format_types or [x for x in FORMAT_TYPES if x != "ansi-8bit"])
         cargs = [rnd.choice([t, t, t.upper(), t.title()])]
     elif sub == "mix":
         base = rnd.choice([rand_color_text(rnd), rand_color_text(rnd), bad_color_text(rnd), "-"])
@@ -1390,7 +1392,7 @@ def c09(res, tier, seed, lib):
     """`pastel to-gray` / `pastel textcolor` hand every colour to the library functions: the printed
     gray is achromatic with the input's luminance (within one gray step), grays stay, and the text
     colour is black or white with contrast >= 4.5."""
-    modelled_family(res, random.Random(seed + 77), ['to-gray', 'textcolor', 'gray'], 100 if tier != "thorough" else 1200)
+    modelled_family(res, random.Random(seed + 77), ['to-gray', 'gray'], 100 if tier != "thorough" else 1200)   # textcolor: a relation, judged below
     rnd = random.Random(seed)
     n = 60 if tier != "thorough" else 1200
     texts = near_gray_texts(rnd, n) + [rand_color_text(rnd) for _ in range(n)] + ["#%02x%02x%02x" % (g, g, g) for g in range(0, 256, 5 if tier != "thorough" else 1)]
@@ -2104,7 +2106,7 @@ def c12(res, tier, seed, lib):
             res.check(16 <= code <= 255, "never-a-system-colour", "cli:format-" + kind, t, "code %d" % code)
             res.model_op()
             if w != "ok %d" % code:
-                res.disagree("format %s %s" % (kind, t), "code %d" % code, w)
+                res.tag("relational-op:model-chose-differently")   # a relation (less than 1.0 from the closest): the harness oracles decide
 
 
 RUNNERS = {"C12": c12, "C20": c20, "C15": c15, "C04": c04, "C01": c01, "C05": c05, "C07": c07, "C09": c09, "C10": c10, "C02": c02, "C06": c06, "C08": c08, "C13": c13, "C14": c14, "C16": c16, "C17": c17, "C18": c18, "C19": c19}
